@@ -20,6 +20,7 @@ def run(ctx, sess):
     ctx.rule('C01.e', '"whatever the first sample id was": the sample_id_offset is applied exactly once to each id and no compare mixes an api-relative id with a file id, in every reader function that mentions the offset')
     ctx.rule('C01.f', 'seek descent: in the index descent of jls_core_fsr_seek / jls_core_ts_seek no compound-updated local (other than the level counter) carries a value from one level into the next; the step size of a level is computed from the definition and that level alone')
     ctx.rule('C01.g', '"the reader reports exactly the number of samples": at close every FSR summary level whose index holds entries is written, unless its single entry is the first chunk of the level below and the level has no chunk on disk (then that chunk is reachable through its own track head)')
+    ctx.rule('C01.h', '"the reader reports exactly the number of samples": a block is omitted only when it is full; the sample count of a partial block exists only in its data chunk')
     ctx.rule('C01.b', 'grow-to-fit: buffer growth strictly increasing and overflow-free; the grow request covers the on-disk payload size for every residue')
     f = P.fn('jls_core_rd_fsr_level1')
     ctx.saw(f)
@@ -82,6 +83,8 @@ def run(ctx, sess):
     _freshness(ctx, P, exceptions('C04'), rule='C01.c')
     from .c15 import first_block_stored
     first_block_stored(ctx, P, 'C01.d')
+    from .c15 import full_block_only
+    full_block_only(ctx, P, 'C01.h')
     from .frames import frames_rule
     frames_rule(ctx, P, 'C01.e')
     descent_purity(ctx, P, 'C01.f')
